@@ -1,0 +1,290 @@
+//! Verification hooks (feature `verif-hooks`, off by default).
+//!
+//! Transparent wrappers around the core atomics used by this crate. Every
+//! access first asks a per-thread [`Hook`] (if one is installed) and reports
+//! the outcome afterwards. Without an installed hook the wrappers are plain
+//! pass-throughs. Nothing in this module is compiled unless the feature is on.
+
+#![allow(missing_docs)]
+
+use core::{
+  cell::Cell,
+  fmt,
+  sync::atomic::{self as core_atomic, Ordering},
+};
+
+/// The kind of an intercepted access.
+#[derive(Debug, Clone, Copy, PartialEq, Eq)]
+pub enum Kind {
+  Load,
+  Store,
+  Cas,
+  CasWeak,
+  FetchAdd,
+  FetchSub,
+}
+
+/// One intercepted atomic access.
+#[derive(Debug, Clone, Copy)]
+pub struct Access {
+  /// Address of the atomic.
+  pub addr: usize,
+  /// Width in bytes.
+  pub width: u8,
+  pub kind: Kind,
+  /// Ordering passed by the caller (success ordering for CAS).
+  pub order: Ordering,
+  /// Failure ordering (CAS only, otherwise `Relaxed`).
+  pub fail_order: Ordering,
+  pub file: &'static str,
+  pub line: u32,
+  /// Stored value / CAS new value / RMW operand.
+  pub operand: u64,
+  /// CAS expected value.
+  pub expected: u64,
+  /// Value observed by the access (filled for `after`).
+  pub old: u64,
+  /// CAS outcome (filled for `after`, `true` for everything else).
+  pub success: bool,
+  /// The failure was injected by the hook.
+  pub spurious: bool,
+}
+
+/// Callbacks implemented by the simulator.
+pub trait Hook {
+  /// Called before the access is performed; the only place where the caller
+  /// may be descheduled. Returning `true` asks a *weak* CAS to fail spuriously.
+  fn before(&self, access: &Access) -> bool;
+  /// Called after the access has been performed.
+  fn after(&self, access: &Access);
+  /// A plain (non-atomic) write by the arena itself, e.g. zeroing a range.
+  /// Called before the write happens.
+  fn plain_write(&self, addr: usize, len: usize, what: &'static str);
+  /// The backing memory is about to be released.
+  fn teardown(&self, addr: usize, len: usize);
+}
+
+std::thread_local! {
+  static HOOK: Cell<Option<&'static dyn Hook>> = const { Cell::new(None) };
+}
+
+/// Installs (or removes) the hook of the calling thread.
+pub fn set_hook(hook: Option<&'static dyn Hook>) {
+  HOOK.with(|h| h.set(hook));
+}
+
+#[inline]
+fn hook() -> Option<&'static dyn Hook> {
+  HOOK.try_with(|h| h.get()).ok().flatten()
+}
+
+#[inline]
+pub(crate) fn plain_write(addr: usize, len: usize, what: &'static str) {
+  if let Some(h) = hook() {
+    h.plain_write(addr, len, what);
+  }
+}
+
+#[inline]
+pub(crate) fn teardown(addr: usize, len: usize) {
+  if let Some(h) = hook() {
+    h.teardown(addr, len);
+  }
+}
+
+/// Bounded walk over a free list stored in `[ptr, ptr + cap)`, starting at the
+/// sentinel word. Returns `(node offset, node word)` pairs; stops at the tail,
+/// at an out-of-bounds / misaligned offset (which is still reported) or after
+/// `max` nodes. Fires no hooks.
+///
+/// ## Safety
+/// `ptr..ptr + cap` must be readable.
+pub unsafe fn walk_freelist(ptr: *const u8, cap: u32, sentinel: u64, max: usize) -> std::vec::Vec<(u32, u64)> {
+  let mut out = std::vec::Vec::new();
+  let mut next = sentinel as u32;
+  while next != u32::MAX && out.len() < max {
+    if next % 8 != 0 || next as u64 + 8 > cap as u64 {
+      out.push((next, 0));
+      break;
+    }
+    let word = unsafe { core::ptr::read_volatile(ptr.add(next as usize).cast::<u64>()) };
+    out.push((next, word));
+    next = word as u32;
+  }
+  out
+}
+
+macro_rules! wrapper {
+  ($name:ident, $inner:ident, $ty:ty, $width:expr) => {
+    #[repr(transparent)]
+    pub struct $name(core_atomic::$inner);
+
+    impl fmt::Debug for $name {
+      fn fmt(&self, f: &mut fmt::Formatter<'_>) -> fmt::Result {
+        fmt::Debug::fmt(&self.0, f)
+      }
+    }
+
+    impl $name {
+      #[inline]
+      pub const fn new(v: $ty) -> Self {
+        Self(core_atomic::$inner::new(v))
+      }
+
+      /// Reads the value without firing hooks.
+      #[inline]
+      pub fn verif_peek(&self) -> $ty {
+        self.0.load(Ordering::Relaxed)
+      }
+
+      #[inline]
+      fn access(&self, kind: Kind, order: Ordering, fail_order: Ordering, operand: u64, expected: u64, loc: &'static core::panic::Location<'static>) -> Access {
+        Access {
+          addr: self as *const Self as usize,
+          width: $width,
+          kind,
+          order,
+          fail_order,
+          file: loc.file(),
+          line: loc.line(),
+          operand,
+          expected,
+          old: 0,
+          success: true,
+          spurious: false,
+        }
+      }
+
+      #[inline]
+      #[track_caller]
+      pub fn load(&self, order: Ordering) -> $ty {
+        match hook() {
+          None => self.0.load(order),
+          Some(h) => {
+            let mut a = self.access(Kind::Load, order, Ordering::Relaxed, 0, 0, core::panic::Location::caller());
+            h.before(&a);
+            let v = self.0.load(order);
+            a.old = v as u64;
+            h.after(&a);
+            v
+          }
+        }
+      }
+
+      #[inline]
+      #[track_caller]
+      pub fn store(&self, val: $ty, order: Ordering) {
+        match hook() {
+          None => self.0.store(val, order),
+          Some(h) => {
+            let mut a = self.access(Kind::Store, order, Ordering::Relaxed, val as u64, 0, core::panic::Location::caller());
+            h.before(&a);
+            a.old = self.0.load(Ordering::Relaxed) as u64;
+            self.0.store(val, order);
+            h.after(&a);
+          }
+        }
+      }
+
+      #[inline]
+      #[track_caller]
+      pub fn compare_exchange(&self, current: $ty, new: $ty, success: Ordering, failure: Ordering) -> Result<$ty, $ty> {
+        match hook() {
+          None => self.0.compare_exchange(current, new, success, failure),
+          Some(h) => {
+            let mut a = self.access(Kind::Cas, success, failure, new as u64, current as u64, core::panic::Location::caller());
+            h.before(&a);
+            let r = self.0.compare_exchange(current, new, success, failure);
+            match r {
+              Ok(v) => {
+                a.old = v as u64;
+                a.success = true;
+              }
+              Err(v) => {
+                a.old = v as u64;
+                a.success = false;
+              }
+            }
+            h.after(&a);
+            r
+          }
+        }
+      }
+
+      #[inline]
+      #[track_caller]
+      pub fn compare_exchange_weak(&self, current: $ty, new: $ty, success: Ordering, failure: Ordering) -> Result<$ty, $ty> {
+        match hook() {
+          None => self.0.compare_exchange_weak(current, new, success, failure),
+          Some(h) => {
+            let mut a = self.access(Kind::CasWeak, success, failure, new as u64, current as u64, core::panic::Location::caller());
+            let r = if h.before(&a) {
+              a.spurious = true;
+              Err(self.0.load(failure))
+            } else {
+              self.0.compare_exchange(current, new, success, failure)
+            };
+            match r {
+              Ok(v) => {
+                a.old = v as u64;
+                a.success = true;
+              }
+              Err(v) => {
+                a.old = v as u64;
+                a.success = false;
+              }
+            }
+            h.after(&a);
+            r
+          }
+        }
+      }
+    }
+  };
+}
+
+macro_rules! wrapper_rmw {
+  ($name:ident, $ty:ty) => {
+    impl $name {
+      #[inline]
+      #[track_caller]
+      pub fn fetch_add(&self, val: $ty, order: Ordering) -> $ty {
+        match hook() {
+          None => self.0.fetch_add(val, order),
+          Some(h) => {
+            let mut a = self.access(Kind::FetchAdd, order, Ordering::Relaxed, val as u64, 0, core::panic::Location::caller());
+            h.before(&a);
+            let v = self.0.fetch_add(val, order);
+            a.old = v as u64;
+            h.after(&a);
+            v
+          }
+        }
+      }
+
+      #[inline]
+      #[track_caller]
+      pub fn fetch_sub(&self, val: $ty, order: Ordering) -> $ty {
+        match hook() {
+          None => self.0.fetch_sub(val, order),
+          Some(h) => {
+            let mut a = self.access(Kind::FetchSub, order, Ordering::Relaxed, val as u64, 0, core::panic::Location::caller());
+            h.before(&a);
+            let v = self.0.fetch_sub(val, order);
+            a.old = v as u64;
+            h.after(&a);
+            v
+          }
+        }
+      }
+    }
+  };
+}
+
+wrapper!(AtomicBool, AtomicBool, bool, 1);
+wrapper!(AtomicU32, AtomicU32, u32, 4);
+wrapper!(AtomicU64, AtomicU64, u64, 8);
+wrapper!(AtomicUsize, AtomicUsize, usize, 8);
+wrapper_rmw!(AtomicU32, u32);
+wrapper_rmw!(AtomicU64, u64);
+wrapper_rmw!(AtomicUsize, usize);
